@@ -176,3 +176,91 @@ _ld = _LoadDf(PD + 'load_df', props=['C17'],
 REGISTRY[_ld.ident] = _ld
 _ld.abstraction = ('the readers are stubs that record what they are given; os.path.splitext and the metadata look-ups are '
                    'uninterpreted; a stream argument (StringIO) is outside this contract')
+
+
+# ---------------------------------------------------------------------------
+# save_df (C17 / C06): where the records go.  '-' or no path: standard output only (nothing is written to a file);
+# a .parquet path: the parquet writer, that path; csv / psv / tsv / txt: the CSV writer, that path, the caller's index
+# flag; any other format: an exception before anything is written.
+# ---------------------------------------------------------------------------
+
+def _sd_entry(it, senv):
+    df = SObj('DataFrame', {'__open__': False}, label='df')
+
+    def to_parquet(it2, self, path=None, index=None, **kw):
+        _log(it2).append(('to_parquet', path, index))
+    df.methods['to_parquet'] = Builtin(to_parquet, 'DataFrame.to_parquet')
+    senv['df'] = df
+    it.spec_env['print'] = Builtin(lambda it2, *a, **k: _log(it2).append(('print', a)), 'print')
+
+
+def _register_save():
+    def writer(it, env):
+        _log(it).append(('csv_writer', env['path'], env.get('_extra_kwargs', {}).get('index', env.get('index'))))
+        return it.fresh_str('csv_text') if env['path'] is None else None
+    c = Contract('tdda/referencetest/checkpandas.py::default_csv_writer', params=dict(df=None, path=None), effects=writer,
+                 result=T.none, assumed=True, name='default_csv_writer',
+                 trusted_note='default_csv_writer(df, path, **kw) writes the frame as CSV to path, or returns the text when '
+                              'path is None')
+    c.varargs_ok = True
+    REGISTRY[c.ident] = c
+
+    def fmt(it, env):
+        k = it.path.choose([True] * 6)
+        f = ('parquet', 'csv', 'psv', 'tsv', 'txt', 'xlsx')[k]
+        it.ghost['fmt'] = f
+        return f
+    c = Contract(PD + 'file_format', params=dict(path=None), effects=fmt, result=T.none, assumed=True, name='file_format',
+                 trusted_note='file_format(path) is the extension of the path without its dot (csv when there is none)')
+    REGISTRY[c.ident] = c
+
+
+_register_save()
+
+
+@specfn
+def records_go_where_asked(it, path, index):
+    log = _log(it)
+    files = [e for e in log if e[0] in ('to_parquet', 'csv_writer') and e[1] is not None]
+    prints = [e for e in log if e[0] == 'print']
+    if path is None or path == '-':
+        return not files and len(prints) == 1
+    f = it.ghost.get('fmt')
+    if len(files) != 1 or prints:
+        return False
+    kind, p, idx = files[0]
+    if p is not path:
+        return False
+    if f == 'parquet':
+        return kind == 'to_parquet' and idx is False
+    return kind == 'csv_writer' and (idx is index or values_equal(it, idx, index))
+
+
+@specfn
+def nothing_written(it):
+    return not [e for e in _log(it) if e[0] in ('to_parquet', 'csv_writer') and e[1] is not None]
+
+
+@specfn
+def unknown_format(it):
+    return it.ghost.get('fmt') not in ('parquet', 'csv', 'psv', 'tsv', 'txt')
+
+
+def _named_file(it, name):
+    p = it.fresh_str(name)
+    it.path.assume(strz(it, p) != strz(it, '-'))       # the dash is the other alternative of this parameter
+    return p
+
+
+_sd = contract(PD + 'save_df', props=['C17', 'C06'],
+               params=dict(df=None, path=T.union(T.const(None), T.const('-'), T.custom(_named_file)), index=T.bool),
+               on_entry=_sd_entry,
+               spec_env=dict(PRIMS, records_go_where_asked=records_go_where_asked, nothing_written=nothing_written,
+                             unknown_format=unknown_format),
+               result=T.none,
+               allow_raise={'Exception': 'unknown_format()'},
+               always=[('nothing-is-written-for-an-unknown-format-or-standard-output',
+                        "not (path is None or path == '-' or unknown_format()) or nothing_written()")],
+               ensures=[('the-records-go-to-the-named-file-through-the-writer-of-its-format-or-to-standard-output',
+                         'records_go_where_asked(path, index)')])
+_sd.abstraction = 'the writers are stubs that record what they are given; file_format is assumed (its result ranges over the known formats and one unknown)'
